@@ -43,6 +43,11 @@ func init() {
 				o.count("choquet-near-ties")
 			}
 			reqs = append(reqs, q)
+			if sib := choquetSibling(q); sib != nil && r.chance(0.5) && len(reqs) < n {
+				reqs = append(reqs, sib)
+				i++
+				o.count("choquet-sibling")
+			}
 		}
 		verdict := func(st int, b []byte) string {
 			if st == 200 {
